@@ -15,22 +15,21 @@ RULE = ("The path is generated first (moves, I/J and R arcs incl. under G91, mat
         "precedes the first move and nothing re-enables. Oracle: identity of the output stream. Non-trivial = at least one region "
         "(or the disabled mode), at least one retract/recover and at least one extruding move. Distinct by SHA-1 of the case.")
 ASSUMPTIONS = [
-    "regions are kept 0.25 mm clear of every point the reference printer visits and of the full-circle bounding box of every arc",
+    "regions are kept 0.25 mm (plus the sample spacing) clear of every point the reference printer visits and of the true path of every arc (dense samples); they may lie inside an arc's circle or on the part of the circle the arc does not travel",
     "G92 X/Y/Z is only issued in absolute positioning; M206 and M82/M83 are not generated",
 ]
 
 
 def clear_of(reg, points, boxes):
+    """0.25 mm clear of every visited point and of every true arc (dense samples, spacing added to the clearance)."""
     for (x, y) in points:
         if geom.signed_dist(reg, x, y) <= 0.25:
             return False
-    if reg["type"] == "rect":
-        x1, y1, x2, y2 = geom.norm_rect(reg)
-    else:
-        x1, y1, x2, y2 = reg["cx"] - reg["r"], reg["cy"] - reg["r"], reg["cx"] + reg["r"], reg["cy"] + reg["r"]
-    for (a1, b1, a2, b2) in boxes:
-        if not (x2 + 0.25 < a1 or a2 + 0.25 < x1 or y2 + 0.25 < b1 or b2 + 0.25 < y1):
-            return False
+    for arc_pts, spacing in boxes:
+        lim = 0.25 + spacing
+        for (x, y) in arc_pts:
+            if geom.signed_dist(reg, x, y) <= lim:
+                return False
     return True
 
 
@@ -74,7 +73,7 @@ def cases(draw):
     elif mode == "clear":
         # points and arc boxes visited by the unfiltered run
         pr = printer.Printer(bool(cfg.get("g90e")))
-        pts, boxes, axis_cross = [(0.0, 0.0)], [], []
+        pts, boxes, axis_cross, arcs = [(0.0, 0.0)], [], [], []
         for item in rnd.prog:
             if item[0] != "g":
                 continue
@@ -87,8 +86,8 @@ def cases(draw):
                         axis_cross.append((pr.x, q[1]) if pr.x != before[0] else (q[0], pr.y))
                 pts.append((pr.x, pr.y))
             if stp.arc is not None:
-                a = stp.arc
-                boxes.append((a.cx - a.r, a.cy - a.r, a.cx + a.r, a.cy + a.r))
+                boxes.append(stp.arc.points())
+                arcs.append(stp.arc)
         # "cross" candidates: small regions centred on (x of one visited point, y of another) - a place the tool never
         # goes, but where a filter with a stale axis would believe it is
         for k in range(draw(st.integers(0, 4))):
@@ -102,12 +101,25 @@ def cases(draw):
             else:
                 cands.append({"type": "circ", "cx": px[0], "cy": py[1], "r": 0.8, "id": "x%d" % k})
         # regions hugging the bounding box of an arc's full circle: any planned point that strays from the true circle is caught
-        for k in range(draw(st.integers(0, 2)) if boxes else 0):
-            a1, b1, a2, b2 = boxes[draw(st.integers(0, len(boxes) - 1))]
-            side = draw(st.integers(0, 3))
+        for k in range(draw(st.integers(0, 3)) if arcs else 0):
+            a = arcs[draw(st.integers(0, len(arcs) - 1))]
+            a1, b1, a2, b2 = a.cx - a.r, a.cy - a.r, a.cx + a.r, a.cy + a.r
+            kind = draw(st.integers(0, 6))
             g = 0.3
-            hug = [(a1 - g - 4, b1, a1 - g, b2), (a2 + g, b1, a2 + g + 4, b2), (a1, b1 - g - 4, a2, b1 - g), (a1, b2 + g, a2, b2 + g + 4)][side]
-            cands.append({"type": "rect", "x1": hug[0], "y1": hug[1], "x2": hug[2], "y2": hug[3], "id": "h%d" % k})
+            if kind < 4:
+                hug = [(a1 - g - 4, b1, a1 - g, b2), (a2 + g, b1, a2 + g + 4, b2), (a1, b1 - g - 4, a2, b1 - g), (a1, b2 + g, a2, b2 + g + 4)][kind]
+                cands.append({"type": "rect", "x1": hug[0], "y1": hug[1], "x2": hug[2], "y2": hug[3], "id": "h%d" % k})
+            elif kind == 4:
+                # on the part of the circle the arc does NOT travel (opposite its midpoint)
+                import math
+                mid = a.a0 + a.sweep / 2 + math.pi
+                cands.append({"type": "circ", "cx": a.cx + a.r * math.cos(mid), "cy": a.cy + a.r * math.sin(mid), "r": min(2.0, a.r * 0.6), "id": "o%d" % k})
+            elif kind == 5:
+                cands.append({"type": "circ", "cx": a.cx, "cy": a.cy, "r": a.r * 0.7, "id": "c%d" % k})     # inside the circle
+            else:
+                import math
+                beyond = a.a0 + a.sweep * 1.15       # just past the arc's end, on the circle
+                cands.append({"type": "circ", "cx": a.cx + a.r * math.cos(beyond), "cy": a.cy + a.r * math.sin(beyond), "r": 0.6, "id": "e%d" % k})
         for c in cands:
             f = fit(c, pts, boxes)
             if f is not None and (f["type"] == "circ" or (f["x1"] > 2 or f["y1"] > 2 or True)):
